@@ -3,6 +3,7 @@ mod c08;
 mod c09;
 mod c10;
 mod c11;
+mod c12;
 mod c13;
 mod c16;
 mod c17;
@@ -77,6 +78,7 @@ fn main() {
         "c09" => c09::main(&args[2..]),
         "c10" => c10::main(&args[2..]),
         "c11" => c11::main(&args[2..]),
+        "c12" => c12::main(&args[2..]),
         "c16" => c16::main(&args[2..]),
         "ser-layout" => ser::layout_events(&args[2], args[3].parse().unwrap()),
         "ser-faults" => ser::fault_replay(&args[2], args[3].parse().unwrap(), &args[4]),
